@@ -59,6 +59,7 @@ def check(facts, rep, tier, cfg):
     check_r3(facts, rep, crate, bodies)
     check_r4(facts, rep, crate, bodies)
     check_r5_counters(facts, rep, bodies)
+    check_r5_saved_before_pending(facts, rep, bodies)
     check_r6_joint(facts, rep, crate, bodies)
     check_r7_initial_state(facts, rep, crate)
     check_r8_read_not_gated_on_flush(facts, rep, bodies)
@@ -408,6 +409,59 @@ def check_r5_counters(facts, rep, bodies):
                     "the byte count stored with %s does not derive from the count held in the previous state (it is not the running total): the "
                     "totals reported when the bridge completes later omit what was transferred before" % odd[0][0])
     rep.floor(rid, "directions with counted state", m, 2)
+
+
+def check_r5_saved_before_pending(facts, rep, bodies):
+    """A direction keeps its running byte total in its state between polls. After the local accumulator has grown in this poll, the
+    function must not leave through Poll::Pending (or an error-free suspension) before the new total is written to the state:
+    the bytes are relayed but missing from the count the bridge finally returns."""
+    rid = "C13.R5"
+    from an import Explorer
+    k = 0
+    for b in bodies:
+        tr = Tracer(facts, b)
+        acc_locals = set()
+        for blk in b.blocks:
+            for st in blk["stmts"]:
+                if st["k"] == "Assign" and not st["lhs"].get("p") and b.locals[st["lhs"]["l"]]["s"] == "usize" and \
+                        st["rv"]["k"] in ("BinaryOp", "CheckedBinaryOp") and str(st["rv"].get("op", "")).startswith("Add"):
+                    ops = st["rv"].get("ops", [])
+                    if any(o.get("k") in ("copy", "move") and o["p"]["l"] == st["lhs"]["l"] and not o["p"].get("p") for o in ops):
+                        acc_locals.add(st["lhs"]["l"])
+        if not acc_locals:
+            continue
+        alias = set(acc_locals)
+        for blk in b.blocks:
+            for st in blk["stmts"]:
+                if st["k"] == "Assign" and not st["lhs"].get("p") and st["rv"]["k"] == "Use" and st["rv"]["ops"][0].get("k") in ("copy", "move") \
+                        and not st["rv"]["ops"][0]["p"].get("p") and st["rv"]["ops"][0]["p"]["l"] in acc_locals:
+                    alias.add(st["lhs"]["l"])
+        k += 1
+        dirty_pend = []
+
+        def on_stmt(bb, idx, st, auto):
+            if st["k"] != "Assign":
+                return auto
+            if not st["lhs"].get("p") and st["lhs"]["l"] in acc_locals and st["rv"]["k"] in ("BinaryOp", "CheckedBinaryOp"):
+                return "dirty"
+            if st["rv"]["k"] == "Aggregate" and str(st["rv"]["agg"].get("adt", "")).endswith("State") and \
+                    any(o.get("k") in ("copy", "move") and o["p"]["l"] in alias for o in st["rv"]["ops"]):
+                return "clean"
+            if st["lhs"]["l"] == 0 and not st["lhs"].get("p") and st["rv"]["k"] == "Aggregate" and st["rv"]["agg"].get("variant") == "Pending" \
+                    and auto == "dirty":
+                dirty_pend.append(bb)
+            return auto
+        ex = Explorer(facts, b, on_stmt=on_stmt)
+        ex.run(0, "clean")
+        rep.paths += len(ex.seen)
+        where = "%s (%s)" % (loc_str(b.loc), b.path)
+        if dirty_pend:
+            rep.bad(rid, "%s/total-saved-before-pending" % b.path, "%s (%s)" % (loc_str(b.term(dirty_pend[0])["loc"]), b.path),
+                    "this direction can return Poll::Pending after its byte total has grown in this poll but before the new total is written to "
+                    "its state: the progress of that poll is lost from the count the bridge returns at the end")
+        else:
+            rep.ok(rid, "%s/total-saved-before-pending" % b.path, where, "the running total is in the state whenever the function yields")
+    rep.floor(rid, "directions with a running total", k, 2)
 
 
 def check_r4(facts, rep, crate, bodies):
